@@ -43,11 +43,11 @@ func HarnessC16(m, withNil, withBase int) {
 		return nil
 	})
 	const (
-		oX = iota // Named(spelling of ab, P0)
-		oY        // NamedSubtype(spelling of cd, P2, "s")
-		oZ        // TypedSubtype(P1, "s")
-		oNilVal   // a nil value: ignored
-		oNilArg   // a nil option
+		oX      = iota // Named(spelling of ab, P0)
+		oY             // NamedSubtype(spelling of cd, P2, "s")
+		oZ             // TypedSubtype(P1, "s")
+		oNilVal        // a nil value: ignored
+		oNilArg        // a nil option
 	)
 	nk := 4
 	if withNil == 1 {
